@@ -115,8 +115,20 @@ fn reference(p: &Params) -> Vec<RefEvent> {
     ev
 }
 
-fn same(e: &SliderEvent, r: &RefEvent) -> bool {
-    e.kind == r.kind && e.span_idx == r.span && close(e.span_start_time, r.span_start) && close(e.time, r.time) && close(e.path_progress, r.progress)
+/// tick distances are accumulated (d += tick) by the implementation and multiplied (k * tick) by the
+/// reference: after k additions the relative difference is up to k * 2^-53, which the span duration
+/// scales into the time. Times are therefore compared with an absolute tolerance of
+/// 1e-9 * (|span start| + 1) + 2e-11 * span duration, progress values with 1e-9.
+fn time_close(a: f64, b: f64, span_start: f64, dur: f64) -> bool {
+    (a.is_nan() && b.is_nan()) || a == b || (a - b).abs() <= 1e-9 * (span_start.abs() + 1.0) + 2e-11 * dur.abs()
+}
+
+fn same(e: &SliderEvent, r: &RefEvent, dur: f64) -> bool {
+    e.kind == r.kind
+        && e.span_idx == r.span
+        && time_close(e.span_start_time, r.span_start, r.span_start, dur)
+        && time_close(e.time, r.time, r.span_start, dur)
+        && close(e.path_progress, r.progress)
 }
 
 fn fmt_ev(e: &SliderEvent) -> String {
@@ -128,7 +140,7 @@ fn compare(p: &Params, got: &[SliderEvent]) -> Result<(), String> {
     // align, allowing `optional` reference ticks to be absent
     let mut i = 0usize;
     for r in &want {
-        if i < got.len() && same(&got[i], r) {
+        if i < got.len() && same(&got[i], r, p.dur) {
             i += 1;
         } else if r.optional {
             continue;
@@ -359,7 +371,7 @@ pub fn run(ctx: &mut Ctx) {
         check_single(p).map_err(|m| Fail::json(m, &p.to_json()))
     });
 
-    let cases = ctx.tier.pick(100_000u64, 2_000_000u64);
+    let cases = ctx.tier.pick(300_000u64, 3_000_000u64);
     ctx.pbt("c20-random", cases, 64, |t, st| {
         let p = gen_params(t);
         st.eval();
@@ -377,7 +389,7 @@ pub fn run(ctx: &mut Ctx) {
         check_single(&p).map_err(|m| Fail::json(m, &p.to_json()))
     });
 
-    let hist = ctx.tier.pick(20_000u64, 300_000u64);
+    let hist = ctx.tier.pick(100_000u64, 1_000_000u64);
     ctx.pbt("c20-histories", hist, 256, |t, st| {
         let steps = gen_history(t);
         st.eval();
